@@ -31,6 +31,7 @@
 #include "mcx.h"
 #include "http.c"
 #include "rfc6455.h"
+#include "ws_quirks.h"
 #include "ws_session.h"
 
 #define MAXFRAMES 4
@@ -172,12 +173,55 @@ static void describe(const struct kind *k)
 	else mc_observe("%s%s%s/%ld ", opname(k->op), k->fin ? ".F" : ".-", k->mask ? ".M" : ".u", k->len);
 }
 
+static int same_as_lib(const struct ws_sess *s, const struct wsq_result *q)
+{
+	size_t i;
+	if (s->nmsgs != q->nmsgs || !s->closed != !q->closed) return 0;
+	for (i = 0; i < s->nmsgs; i++)
+		if (s->msgs[i].type != q->msgs[i].type || s->msgs[i].len != q->msgs[i].len ||
+		    (s->msgs[i].len && memcmp(s->msgs[i].data, q->msgs[i].data, s->msgs[i].len))) return 0;
+	return 1;
+}
+
+/* A divergence from the reference was found.  Is it exactly what one (or a combination) of the
+ * registered deviation classes of ws.c produces on this input?  Then report those classes (one
+ * narrow key each, see known_findings.jsonl); otherwise return 0 and the generic key is used. */
+static int classify_known(struct ws_sess *s, const struct stream *st, const size_t *reads, size_t nreads, const char *what)
+{
+	static int cid[WSQ_NFLAGS] = { -1, -1, -1, -1, -1, -1 };
+	static const char *cname[WSQ_NFLAGS] = { "known_class_A_continuation_opcode_rejected", "known_class_B_data_opcode_inside_fragmented",
+		"known_class_C_continuation_without_start", "known_class_D_frames_after_close", "known_class_E1_fragmented_control", "known_class_E2_control_over_125" };
+	int pc; unsigned f;
+	for (pc = 1; pc <= WSQ_NFLAGS; pc++)
+		for (f = 1; f <= WSQ_ALL; f++) {
+			struct wsq_result q; int ok, i;
+			if (__builtin_popcount(f) != pc) continue;
+			wsq_run(st->b, st->n, reads, nreads, f, WS_LIMIT, (size_t)p_appclose, &q);
+			ok = same_as_lib(s, &q);
+			wsq_free(&q);
+			if (!ok) continue;
+			mc_observe(" known[");
+			for (i = 0; i < WSQ_NFLAGS; i++) if (f & (1u << i)) {
+				char key[120];
+				snprintf(key, sizeof key, "C31/%s", wsq_flag_key(1u << i));
+				mc_count_id(&cid[i], cname[i], 1);
+				mc_observe("%s ", wsq_flag_key(1u << i));
+				mc_fail(key, "%s: library delivered %zu messages and %s the connection; this is the reference behaviour plus the known deviation(s) %#x of ws.c",
+				    what, s->nmsgs, s->closed ? "closed" : "kept", f);
+			}
+			mc_observe("]");
+			return 1;
+		}
+	return 0;
+}
+
 /* the oracle: compare what the library delivered with the reference decoder */
-static void compare(struct ws_sess *s, struct rfc6455_dec *ref, const char *what)
+static void compare(struct ws_sess *s, struct rfc6455_dec *ref, const struct stream *st, const size_t *reads, size_t nreads, const char *what)
 {
 	size_t i, n = s->nmsgs < ref->nmsgs ? s->nmsgs : ref->nmsgs;
 	const char *why = rfc6455_reason_name(ref->reason);
 	char key[160];
+	int diverges = 0;
 	MC_COUNT("oracle_delivered_list_compared");
 	MC_COUNTN("ref_messages_expected", ref->nmsgs);
 	if (ref->state == RFC6455_OPEN) MC_COUNT("ref_end_open");
@@ -191,6 +235,26 @@ static void compare(struct ws_sess *s, struct rfc6455_dec *ref, const char *what
 	mc_observe("]");
 	if (s->msgs_after_closecb)
 		mc_fail("C31/message-callback-after-close-callback", "%s: %d message callbacks after the close callback", what, s->msgs_after_closecb);
+	{
+		/* self-check of the classification model: without deviations it must be the reference */
+		struct wsq_result q; int same;
+		wsq_run(st->b, st->n, reads, nreads, 0, WS_LIMIT, (size_t)p_appclose, &q);
+		same = q.nmsgs == ref->nmsgs && !q.closed == (ref->state == RFC6455_OPEN);
+		for (i = 0; same && i < q.nmsgs; i++)
+			same = q.msgs[i].type == ref->msgs[i].opcode && q.msgs[i].len == ref->msgs[i].len && (!q.msgs[i].len || !memcmp(q.msgs[i].data, ref->msgs[i].data, q.msgs[i].len));
+		wsq_free(&q);
+		if (!same) mc_fail("harness:C31-quirk-model-differs-from-reference", "%s: models/ws_quirks.c with no deviation disagrees with models/rfc6455.c", what);
+	}
+	/* does the library agree with the reference? */
+	if (s->nmsgs != ref->nmsgs || !s->closed == (ref->state != RFC6455_OPEN)) diverges = 1;
+	for (i = 0; i < n && !diverges; i++)
+		if (s->msgs[i].type != ref->msgs[i].opcode || s->msgs[i].len != ref->msgs[i].len ||
+		    (s->msgs[i].len && memcmp(s->msgs[i].data, ref->msgs[i].data, s->msgs[i].len))) diverges = 1;
+	MC_COUNT("oracle_closed_state_compared");
+	if (!diverges) { MC_COUNT("agrees_with_reference"); return; }
+	MC_COUNT("diverges_from_reference");
+	if (classify_known(s, st, reads, nreads, what)) return;
+	MC_COUNT("diverges_unexplained");
 	for (i = 0; i < n; i++) {
 		struct ws_delivered *l = &s->msgs[i]; struct rfc6455_msg *r = &ref->msgs[i];
 		const char *frag = r->nfragments > 1 ? "fragmented" : "single-frame";
@@ -211,7 +275,6 @@ static void compare(struct ws_sess *s, struct rfc6455_dec *ref, const char *what
 		    what, s->nmsgs, ref->nmsgs, ref->msgs[n].opcode, ref->msgs[n].len, ref->msgs[n].nfragments);
 		return;
 	}
-	MC_COUNT("oracle_closed_state_compared");
 	if (ref->state != RFC6455_OPEN && !s->closed) {
 		snprintf(key, sizeof key, "C31/not-closed/%s", why);
 		mc_fail(key, "%s: reference stream ended (%s) but the connection was not closed", what, why);
@@ -239,6 +302,7 @@ static void run_stream(const struct kind *const *ks, int nf, struct stream *st, 
 {
 	struct ws_sess s; struct rfc6455_dec ref;
 	size_t pos = 0, cutpos[64]; int c, nseg = 0, ncut = 0; uint64_t h;
+	static size_t *reads; static size_t capreads; size_t nreads = 0;
 	char what[400]; int wl = 0, f;
 	if (p_dry) {
 		for (c = 0; c < st->ncand; c++) if (mode == 0) (void)mc_choose(2, 1, "cut");
@@ -266,7 +330,13 @@ static void run_stream(const struct kind *const *ks, int nf, struct stream *st, 
 			ncut++;
 		}
 		ws_send_segment(&s, st->b + pos, end - pos);
-		pos = end; nseg++;
+		/* the reads the library makes for this segment: at most 4096 bytes each (evbuffer_read) */
+		while (pos < end) {
+			if (nreads == capreads) { capreads = capreads ? capreads * 2 : 256; reads = realloc(reads, capreads * sizeof *reads); if (!reads) abort(); }
+			pos = end - pos > 4096 ? pos + 4096 : end;
+			reads[nreads++] = pos;
+		}
+		nseg++;
 		MC_COUNT("segments_fed");
 		h = mc_hash_u64(h, (uint64_t)end);
 		if (mc_state(h, 0)) MC_COUNT("state_hash_collisions_ignored");
@@ -280,7 +350,7 @@ static void run_stream(const struct kind *const *ks, int nf, struct stream *st, 
 	rfc6455_dec_init(&ref, WS_LIMIT, 0 /* property: "masked or not" */);
 	ref.close_after_nmsgs = (size_t)p_appclose;
 	rfc6455_dec_feed(&ref, st->b, st->n);
-	compare(&s, &ref, what);
+	compare(&s, &ref, st, reads, nreads, what);
 	observe_written_back(&s);
 	if (mc_replaying()) {
 		size_t i;
